@@ -187,6 +187,39 @@ def check(F, rep, tier):
         reach = cg.closure([f.path])
         if tgt and tgt <= reach: rep.ok("R07.6", "%s converts through From<SemVer>/From<PEP440> for Zerv" % nm, nontrivial_key=nm)
         else: rep.bad("R07.6", "other-conversion:" + nm, "%s does not reach both From<SemVer> and From<PEP440> for Zerv" % nm, f.where())
+    # ---- R07.9 every identifier a conversion pushes arrives: the schema's push_* append unconditionally -----------------------------
+    npush = 0
+    for nm in ("push_core", "push_extra_core", "push_build"):
+        pf_ = F.fn("crate::version::zerv::schema::core::ZervSchema::" + nm)
+        if not rep.anchor("R07.9", "ZervSchema::" + nm, pf_): continue
+        rep.fn_seen(pf_)
+        pi_ = mir.inlined(F, pf_, depth=2, keep=("set_core", "set_extra_core", "set_build", "validate"))
+        pushes = [(h, bi) for h in [pi_] + mir.closures_in(F, pi_) for bi, t in h.calls() if (mir.callee(t) or "").endswith("Vec::<T, A>::push") or (mir.callee(t) or "").endswith("::extend") or (mir.callee(t) or "").endswith("Vec::<T, A>::insert")]
+        if not pushes: rep.undecided("R07.9", "push-shape:" + nm, "%s does not append with Vec::push" % nm, pf_.where()); continue
+        for h, bi in pushes:
+            npush += 1
+            conds = [(d, pol) for d, pol, dd in mir.guards_of(h, bi) if d[0] in ("call", "bin") and not (d[0] == "call" and "Try>::branch" in str(d[1]))]
+            site = "%s bb%d line %s" % (h.where(), bi, h.blocks[bi]["line"])
+            if conds: rep.bad("R07.9", "conditional-push:" + nm, "%s appends the component only under %s: some identifiers a conversion pushes are dropped (e.g. the second of two equal adjacent ones: 1.2.3+ab.ab reads back as 1.2.3+ab)" % (nm, [str(d[1]).rsplit("::", 1)[-1] if d[0] == "call" else d[1] for d, pol in conds][:3]), site)
+            else: rep.ok("R07.9", "%s appends unconditionally" % nm, sample=site, nontrivial_key="push" + nm + str(bi))
+    rep.floor("R07.9", "appends in ZervSchema::push_*", npush, 3)
+    # ---- R07.10 a text local part is the sanitiser's output, nothing else is done to it --------------------------------------------------
+    tns = F.fn("crate::version::pep440::utils::LocalSegment::try_new_str")
+    if rep.anchor("R07.10", "LocalSegment::try_new_str", tns):
+        rep.fn_seen(tns)
+        nstr_ = 0
+        POST = ("::trim_start_matches", "::trim_end_matches", "::trim_matches", "::trim", "::trim_start", "::trim_end", "::replace", "::to_uppercase", "::strip_prefix", "::strip_suffix", "::truncate", "::take", "::skip", "::collect", "::parse", "::split")
+        for bi, si, st in tns.stmts():
+            if not (st[0] == "=" and st[2][0] == "agg" and (st[2][1].get("adt") or "").endswith("LocalSegment") and st[2][1].get("variant") == "Str"): continue
+            nstr_ += 1
+            site = "%s bb%d line %s" % (tns.where(), bi, tns.blocks[bi]["line"])
+            calls_ = {mir.callee(tns.blocks[int(d_)]["t"]) or "?" for k_, d_ in mir.deep_origins(tns, st[2][2][0], stop=()) if k_ == "call" and d_.isdigit() and tns.blocks[int(d_)]["t"][0] == "call"}
+            consts_ = [d_ for k_, d_ in mir.deep_origins(tns, st[2][2][0], stop=()) if k_ == "const" and "'k': 'str'" in d_]
+            post = sorted(c.rsplit("::", 1)[-1] for c in calls_ if any(c.endswith(x) for x in POST))
+            if post or consts_: rep.bad("R07.10", "local-text-postprocessed", "LocalSegment::try_new_str changes the sanitised text afterwards (%s%s): an alphanumeric id such as 0abc123 loses characters in PEP 440 but not in SemVer, so the two renderings of one version disagree" % (post, " / constant text" if consts_ else ""), site)
+            elif any(c.endswith("Sanitizer::sanitize") for c in calls_): rep.ok("R07.10", "LocalSegment::Str holds the sanitiser's output as is", sample=site, nontrivial_key="tns%d" % bi)
+            else: rep.undecided("R07.10", "local-text-origin", "the text stored in LocalSegment::Str is not recognisably the sanitiser's output", site)
+        rep.floor("R07.10", "LocalSegment::Str constructions in try_new_str", nstr_, 1)
     # ---- R07.8 a version is read in the format that was asked for; auto-detection prefers SemVer -------------------------------------
     if rr is not None:
         try:
